@@ -206,9 +206,21 @@ def validate_pairs(pairs, n1, n2, off1, off2, label):
 def check_splitter(case):
     n1, n2, o1, o2 = case["n1"], case["n2"], case["off1"], case["off2"]
     r1, r2 = _plain_residue(n1), _plain_residue(n2, 2, "OTH")
-    pairs = lib("splitter", guess_residue_restrains, r1, r2, o1, o2)
-    pairs = [(int(i), int(j)) for i, j in pairs]
+    got = lib("splitter", guess_residue_restrains, r1, r2, o1, o2)
+    pairs = [(int(i), int(j)) for i, j in got]
     validate_pairs(pairs, n1, n2, o1, o2, "residue lengths %d x %d, offsets %d/%d" % (n1, n2, o1, o2))
+    # the returned list is the caller's (edited e.g. while adding manual restraints): a later guess for residues of the
+    # same sizes is the same list of pairs again
+    try:
+        del got[::2]
+        got.append((10 ** 6, 10 ** 6))
+    except (TypeError, AttributeError):
+        pass
+    again = [(int(i), int(j)) for i, j in lib("splitter", guess_residue_restrains, _plain_residue(n1, 5, "AAA"),
+                                              _plain_residue(n2, 6, "BBB"), o1, o2)]
+    if again != pairs:
+        raise PropertyViolation("splitter-repeatable", "residue lengths %d x %d: after the caller edited the first result, the "
+                                "same guess gives %r instead of %r" % (n1, n2, again[:6], pairs[:6]))
     return {"nontrivial": n1 > 1 and n2 > 1, "classes": ["n1<n2" if n1 < n2 else "n1>=n2"]}
 
 
